@@ -128,7 +128,9 @@ CLAIMED = {
             "Start..Uninit segments without resetting what init() does not reset.",
             "Exhaustive over the list constants of tools/checks/c18.py.", "DESIGN.md 3 (C18)"),
     "C19": ("model_checking", "TLC model checking of the copy pipeline (MCCopy) + TLC trace validation of hooked -cdf runs + byte identity",
-            "MCCopy: reader, copy task and writer for all interleavings: output = input, slots conserved, termination.  "
+            "MCCopy: reader, copy task and writer for all interleavings: output = input, slots conserved, termination; "
+            "CopyInd.tla: an inductive invariant (conservation, exactly-once SIGUSR2, no deadlock) discharged by Apalache for "
+            "EVERY input length, with MCCopy checked by TLC to refine CopyInd.  "
             "Real -cdf runs on non-bzip2 inputs (empty, 1-4 bytes, magic-prefix look-alikes, multi-megabyte) under "
             "perturbed schedules, short reads/writes and tiny buffers: output bytes identical, exit 0, traces validated "
             "against TraceCopy.",
@@ -187,6 +189,8 @@ def main():
         "engines": [
             {"name": "tlc", "path": "/opt/veriftools/tla/tla2tools.jar",
              "serves_properties": sorted(CLAIMED), "kind_free_text": "TLA+ model checker (model checking, behaviour generation, trace validation)"},
+            {"name": "apalache", "path": "/opt/veriftools/apalache/bin/apalache-mc",
+             "serves_properties": ["C19"], "kind_free_text": "symbolic model checker for TLA+ (inductive invariant of spec/CopyInd.tla)"},
         ],
         "checks": [],
         "not_applicable": [],
